@@ -99,22 +99,31 @@ def run(ctx: Ctx):
     ctx.rule("R02.d", "C templates and interface: index chains end in -1 and carry their own family name, counts are the family sizes, the method template emits unpacking before the body, includes math.h / string.h, locals are `const double`", floor=30)
     index_templates(ctx, "R02.d")
     counts(ctx, "R02.d")
-    T = tm.TemplateModel(sm)
-    sk = T.skeleton("templates/c.py", "method")
-    raw = sk.raw
-    pos = [raw.find(x) for x in ("void {name}({args}){", "{indent_states}", "{indent_parameters}", "{indent_values}")]
-    ctx.check(all(p >= 0 for p in pos) and pos == sorted(pos), "R02.d", sk.func.key("order"), "signature, states, parameters, body", f"C method template: order of sections is {pos}", sk.func.where())
+    from . import util
+    from sa import av as _av
+
+    sk = util.skeleton(ctx, "R02.d", "templates/c.py", "method")
+    if sk is not None:
+        raw = sk.raw
+        pos = [raw.find(x) for x in ("void {name}({args}){", "{states}", "{parameters}", "{values}")]
+        ctx.check(all(p >= 0 for p in pos) and pos == sorted(pos), "R02.d", sk.func.key("order"), "signature, states, parameters, body", f"C method template: order of sections is {pos}", sk.func.where())
     gen = sm.cls("codegen/c.py", "CCodeGenerator")
     vp = gen.class_assigns().get("variable_prefix")
     ctx.check(vp is not None and const_str(vp) == "const double ", "R02.d", "src/gotranx/codegen/c.py::CCodeGenerator::variable_prefix", "locals are `const double`", f"CCodeGenerator.variable_prefix is {norm(vp) if vp is not None else None}", gen.where())
     imp = gen.methods["imports"]
     txt = " ".join(pm.fragments(imp))
     ctx.check("#include <math.h>" in txt and "#include <string.h>" in txt, "R02.d", imp.key(), "math.h and string.h are included", "CCodeGenerator.imports no longer includes math.h and string.h", imp.where())
+    from .c04 import func_tuple
+
     for m in ("_rhs_arguments", "_scheme_arguments"):
         f = gen.methods[m]
-        lists = [n for n in ast.walk(f.node) if isinstance(n, ast.Assign) and norm(n.targets[0]) == "argument_list"]
-        ok = bool(lists) and norm(lists[0].value).replace("'", '"') == '[argument_dict[v] for v in value] + ["double* values"]'
-        ctx.check(ok, "R02.d", f.key("out-parameter"), "result is the trailing `double* values`", f"{f.qualname}: argument list is {norm(lists[0].value) if lists else None}", f.where())
+        kw, v = func_tuple(ctx, f)
+        args_v = kw.get("arguments") if kw else None
+        if args_v is None or _av.has_unk(args_v) or args_v[0] != "list":
+            ctx.undecided("R02.d", f.key("out-parameter"), f"the formal argument list is not understood ({_av.show(v)[:100]})", f.where())
+            continue
+        last = args_v[1][-1] if args_v[1] else None
+        ctx.check(last == _av.C("double* values"), "R02.d", f.key("out-parameter"), "result is the trailing `double* values`", f"{f.qualname}: the last formal is {_av.show(last) if last else None}, not `double* values`", f.where())
     ctx.rule("R02.e", "the C functions number their slots like the index functions (slot families)", floor=17)
     slot_families(ctx, "R02.e")
     ctx.rule("R02.g", "every scheme emitted for C receives the keyword arguments its builder takes (delta, stiff_states)", floor=4)
